@@ -357,6 +357,48 @@ def build(tier, seed, verbose=True):
                 if d.get("quarantined") and d2.get("line0", -1) > 0:
                     hit = any(a.get("line") and d2["line0"] <= a["line"] <= d2["line1"] for x in ds for a in x["at"])
                     d["std_ok"] = not hit
+    # a name-resolution error anywhere in a crate makes rustc stop before type checking, which hides the
+    # type-level rejection of every other witness in that crate: witnesses that showed no error there are
+    # compiled again on their own, so that "no error" really means "accepted"
+    RES = ("E0433", "E0412", "E0425", "E0432", "E0405")
+    for rnd in (1, 2):
+        redo = []
+        for c in list(negs):
+            ds = results["neg"]["diags"].get(c.name, [])
+            if not any(x.get("code") in RES for x in ds):
+                continue
+            quiet = []
+            for d in model[c.name]["decls"]:
+                if d.get("kind") != "neg" or d.get("rechecked"):
+                    continue
+                hit = any(a.get("line") and d["line0"] <= a["line"] <= d["line1"] for x in ds for a in x["at"])
+                if not hit:
+                    quiet.append(d)
+            if not quiet or len(quiet) == len([d for d in model[c.name]["decls"] if d.get("kind") == "neg"]):
+                continue
+            c2 = corpus.Crate("%s_re%d" % (c.name, rnd), kind="neg")
+            c2.header = c.header
+            for d in model[c.name]["decls"]:
+                if d.get("kind") == "raw":
+                    c2.add(json.loads(json.dumps(d)))
+            for d in quiet:
+                d["rechecked"] = True
+                d2 = json.loads(json.dumps(d))
+                d2.pop("rechecked", None)
+                c2.add(d2)
+            redo.append(c2)
+        if not redo:
+            break
+        ws_n = os.path.join(out, "ws_neg_re%d" % rnd)
+        mn = write_workspace(ws_n, redo)
+        model.update(mn)
+        tn = os.path.join(out, "target_neg_re%d" % rnd)
+        rn = run_cargo(ws_n, os.path.join(out, "negout"), tn, wrapper=False, sub="build", label="neg_re%d" % rnd)
+        shutil.rmtree(tn, ignore_errors=True)
+        for cname, ds in rn["diags"].items():
+            results["neg"]["diags"][cname] = ds
+        negs.extend(redo)
+        crates.extend(redo)
     # must-fail declarations that were *accepted*: compile them with the driver too, so that the properties about
     # accepted declarations (C11 invariant, C16 totality) also get a verdict on them
     accepted = []
